@@ -53,3 +53,19 @@ for dp, dn, fn in os.walk(root):
           vocab.add(n.name)
 json.dump(sorted(vocab), open(os.path.join(os.path.dirname(TABLE), 'canon_vocab.json'), 'w'), indent=0)
 print('vocabulary:', len(vocab))
+
+# which reference functions are generators (a non-generator that became one, drained at once by all callers, is read back as a list builder)
+gens = {}
+for dp, dn, fn in os.walk(root):
+  for f in sorted(fn):
+    if f.endswith('.py'):
+      p = os.path.join(dp, f)
+      mod = os.path.relpath(p, root)[:-3].replace(os.sep, '.')
+      if mod.endswith('__init__'):
+        mod = mod[:-len('.__init__')] if '.' in mod else '__init__'
+      tree = ast.parse(open(p).read())
+      from ginsa.normalize import _own_walk
+      gens[mod] = sorted(q for q, fnode in _functions(tree, mod)
+                         if any(isinstance(n, (ast.Yield, ast.YieldFrom)) for n in _own_walk(fnode)))
+json.dump(gens, open(os.path.join(os.path.dirname(TABLE), 'canon_shape.json'), 'w'), indent=0)
+print('generators:', sum(len(v) for v in gens.values()))
